@@ -98,6 +98,16 @@ func compareScalars(context Context, prefs compareTypePref, lhs *CandidateNode, 
 		}
 		return lhsNum < rhsNum, nil
 	} else if (lhsTag == "!!int" || lhsTag == "!!float") && (rhsTag == "!!int" || rhsTag == "!!float") {
+		// as sort does: an integer against a float by their exact values
+		if order, ok := compareIntWithFloat(lhsTag, lhs.Value, rhsTag, rhs.Value); ok {
+			if prefs.OrEqual && order == 0 {
+				return true, nil
+			}
+			if prefs.Greater {
+				return order > 0, nil
+			}
+			return order < 0, nil
+		}
 		// as sort does: integers may be spelt in hex or octal, floats as .inf
 		lhsNum, err := parseNumberForSort(lhsTag, lhs.Value)
 		if err != nil {
